@@ -32,5 +32,6 @@ case "$id" in
   C13|C14) build "$B/multidim"; exec "$B/multidim" --prop "$id" --tier "$tier" --deadline "$DL" ;;
   C18) build "$B/cabi"; exec "$B/cabi" --prop "$id" --tier "$tier" --deadline "$DL" ;;
   C19) build "$B/copymove_asan"; exec "$B/copymove_asan" --prop "$id" --tier "$tier" --deadline "$DL" 2> "$B/asan_$id.log" ;;
+  C20) build "$B/reject"; exec "$B/reject" --prop "$id" --tier "$tier" --deadline "$DL" ;;
   *) echo "unknown property $id"; exit 2 ;;
 esac
